@@ -214,7 +214,7 @@ fn hot_spans(h: &History) -> Vec<(usize, usize)> {
 /// size, and equal to the sequential build — for valid files and for their
 /// fault-corrupted variants alike.
 pub fn c08_schedules(ctx: &Ctx, out: &mut RunOut) -> Result<(), Violation> {
-    for k in ["mode-t-loads", "files-with-all-orders-enumerated", "orders-enumerated-exhaustively", "baton-choice-at-contended-lock", "big-object-stream-docs", "image-fault-corrupted"] {
+    for k in ["mode-t-loads", "mode-t-loads-with-allocation-preemption", "allocation-point-preemptions", "mode-t-loads-stalled-and-discarded", "files-with-all-orders-enumerated", "orders-enumerated-exhaustively", "baton-choice-at-contended-lock", "big-object-stream-docs", "image-fault-corrupted"] {
         ctx.count_n(k, 0); // registered so that a probe that never fires shows up as zero in the evidence
     }
     let mut h = gen_history(ctx, 3, true, false, false);
@@ -260,6 +260,13 @@ pub fn c08_schedules(ctx: &Ctx, out: &mut RunOut) -> Result<(), Violation> {
             if mode_t {
                 ctx.set_mode_t(Some([1usize, 2, 3, 4, 8, 16][ctx.draw(S, 6, "mode-t-workers") as usize]));
                 ctx.count("mode-t-loads");
+                // half of them also preempt workers at allocation points inside the closures
+                // (VERIF_NO_ALLOC_PREEMPT: diagnosis knob used for the sensitivity proof, DESIGN.md 9.1e)
+                let pre = ctx.chance(S, 1, 2, "alloc-preempt") && std::env::var_os("VERIF_NO_ALLOC_PREEMPT").is_none();
+                ctx.set_alloc_preempt(pre);
+                if pre {
+                    ctx.count("mode-t-loads-with-allocation-preemption");
+                }
             } else {
                 ctx.set_mode_t(None);
             }
@@ -270,6 +277,14 @@ pub fn c08_schedules(ctx: &Ctx, out: &mut RunOut) -> Result<(), Violation> {
                 Err(e) => Err(format!("{:?}", e)),
             };
             ctx.set_mode_t(None);
+            ctx.set_alloc_preempt(false);
+            ctx.count_n("allocation-point-preemptions", simhook::baton::take_preemptions());
+            if simhook::baton::take_broken() {
+                // a worker preempted at an allocation held a lock the simulator does not own and the
+                // section stalled: the load ran unsimulated from there on and is not judged
+                ctx.count("mode-t-loads-stalled-and-discarded");
+                continue;
+            }
             match &outcome {
                 Ok(dg) => ctx.event("c08-loaded", 1, *dg),
                 Err(e) => ctx.event("c08-loaded", 0, simcore::fnv(e.as_bytes())),
@@ -342,6 +357,55 @@ pub fn c08_schedules(ctx: &Ctx, out: &mut RunOut) -> Result<(), Violation> {
                 ));
             }
         }
+    }
+    // load_filtered with a filter that rejects a third of the objects (the closure's early exits):
+    // the same document under every completion order, and the one the sequential build gives
+    {
+        use std::sync::atomic::{AtomicU64, Ordering};
+        static SALT: AtomicU64 = AtomicU64::new(0);
+        fn rejected(id: (u32, u16)) -> bool {
+            simcore::mix(SALT.load(Ordering::Relaxed), id.0 as u64) % 3 == 0
+        }
+        fn f_sim(id: (u32, u16), o: &mut sim::lopdf::Object) -> Option<((u32, u16), sim::lopdf::Object)> {
+            if rejected(id) { None } else { Some((id, o.clone())) }
+        }
+        fn f_seq(id: (u32, u16), o: &mut seq::lopdf::Object) -> Option<((u32, u16), seq::lopdf::Object)> {
+            if rejected(id) { None } else { Some((id, o.clone())) }
+        }
+        let path = scratch_dir().join(format!("c08r-{}.pdf", std::process::id()));
+        for (img, kind) in images.iter().take(2) {
+            if std::fs::write(&path, img).is_err() {
+                break;
+            }
+            SALT.store(ctx.draw(W, 1 << 20, "filter-salt"), Ordering::Relaxed);
+            let reference = guarded("load_filtered(seq)", || seq::lopdf::Document::load_filtered(&path, f_seq))?;
+            let reference = match &reference {
+                Ok(d) => Ok(seq::full_digest(d)),
+                Err(e) => Err(format!("{:?}", e)),
+            };
+            for i in 0..4 {
+                ctx.set_sched(match i {
+                    0 => SchedPolicy::InOrder,
+                    1 => SchedPolicy::Reverse,
+                    _ => SchedPolicy::Random,
+                });
+                ctx.set_num_threads([1usize, 2, 3, 4, 8, 16][ctx.draw(S, 6, "pool-size") as usize]);
+                let o = guarded("load_filtered", || sim::lopdf::Document::load_filtered(&path, f_sim))?;
+                let o = match &o {
+                    Ok(d) => Ok(sim::full_digest(d)),
+                    Err(e) => Err(format!("{:?}", e)),
+                };
+                ctx.count("load-filtered-rejecting");
+                if o != reference {
+                    let _ = std::fs::remove_file(&path);
+                    return Err(Violation::new(
+                        "differs-from-sequential",
+                        format!("{kind} image ({}): load_filtered with a filter rejecting a third of the objects gives {} under schedule #{i} but {} in the sequential build", describe(&h), show_outcome(&o), show_outcome(&reference)),
+                    ));
+                }
+            }
+        }
+        let _ = std::fs::remove_file(&path);
     }
     // exhaustive part: every relative completion order of the items whose closures touch the
     // shared state (object-stream containers, streams whose Length lives in an object stream)
